@@ -3,3 +3,6 @@ package otter
 import "github.com/maypok86/otter/v2/internal/verifhook"
 
 func verifhookInstall(f func(id string, v uint64)) { verifhook.Install(f) }
+
+// verifhookPoint lets harness callbacks (a loader) be a scheduling point like a library hook.
+func verifhookPoint(id string) { verifhook.Point(id) }
